@@ -271,3 +271,25 @@ Proof.
   intros op l r Hl Hr. unfold cpp_len_cmp, wrap64.
   rewrite (Z.mod_small l) by lia. rewrite (Z.mod_small r) by lia. reflexivity.
 Qed.
+
+(** * Quantifier tables *)
+
+Lemma bool_eqb_eq : forall a b, bool_eqb a b = true -> a = b.
+Proof. intros [] []; simpl; congruence. Qed.
+
+Lemma quantifier_table_sound : forall t, quantifier_table_ok t = true ->
+  (forall a g a' g', In (a, g, a', g') t -> a' = a /\ g' = g) /\
+  (forall a g, exists a' g', In (a, g, a', g') t).
+Proof.
+  intros t H. unfold quantifier_table_ok in H.
+  repeat (apply andb_true_iff in H; destruct H as [H ?]).
+  split.
+  - intros a g a' g' Hin. rewrite forallb_forall in H. specialize (H _ Hin). simpl in H.
+    apply andb_true_iff in H. destruct H as [Ha Hg].
+    apply bool_eqb_eq in Ha. apply bool_eqb_eq in Hg. subst. split; reflexivity.
+  - assert (P : forall a g, quantifier_case_present t a g = true -> exists a' g', In (a, g, a', g') t).
+    { intros a g Hp. unfold quantifier_case_present in Hp. apply existsb_exists in Hp.
+      destruct Hp as [[[[x y] a'] g'] [Hin Hxy]]. apply andb_true_iff in Hxy. destruct Hxy as [Hx Hy].
+      apply bool_eqb_eq in Hx. apply bool_eqb_eq in Hy. subst. exists a', g'. exact Hin. }
+    intros [] []; apply P; assumption.
+Qed.
